@@ -3,7 +3,7 @@ CONSTANTS
   Construct = "map"
   MaxN = 4
   MaxK = 3
-  FKinds = {"err", "skip", "eof"}
+  FKinds = {"err", "eof"}
   MaxFaults = 2
   OptSet <- OptsCont4
   AbortCancels = TRUE
